@@ -1,5 +1,6 @@
 """C16 — HMM inference (Viterbi, forward-backward, Baum-Welch) and dwell extraction:
 correspondence + oracle (see DESIGN.md 6/C16)."""
+import copy
 import itertools
 import json
 import math
@@ -10,7 +11,7 @@ from fractions import Fraction
 
 import numpy as np
 
-from common import canonical, dec_float, enc_bool, enc_float, enc_list, enc_listlist, enc_rat, errname
+from common import _raised_in_harness, canonical, dec_float, enc_bool, enc_float, enc_list, enc_listlist, enc_rat, errname
 
 PROP = "C16"
 THEOREMS = [
@@ -60,6 +61,13 @@ RULE = (
     "5000), the array being its own buffer, a strided view or read-only and the constructor getting the array or a Slice; "
     "the numbers in the array are exactly those the model and the oracle work on; long label sequences over <=5 labels (negative labels "
     "included) + malformed stream (empty trace, NaN labels, wrong initial_guess type, state-count mismatch). "
+    "Public twins of the anchored private functions: every forward-backward case is also run as ONE Baum-Welch iteration of "
+    "the public constructor started from the model (updated pi, A, means, variances against the exact model, pi' against the "
+    "exact posterior of the first sample, the reported log-likelihood against the reported parameters); every Baum-Welch case "
+    "with T<=64 is also iterated one step at a time through the public constructor, each step started from the previous model "
+    "object (same clauses as the manual E/M steps).  A private function that is not reachable under its anchored name gives "
+    "'?' observations (never compared, listed in coverage.private_ties) and leaves its public twin: the chain for every T, "
+    "extract_dwell_times for the label sequences a model can decode. "
     "Non-trivial: decoded path with >=2 states; forward-backward with K>=2 and T>=2; EM with K>=2 and >=2 "
     "iterations; label sequence with >=2 runs; call sequence with >=2 calls and a trace with >=2 runs; malformed input "
     "that must raise."
@@ -72,6 +80,11 @@ TRUSTED = [
     "outside the model (the code's scaling is what the model mirrors)",
     "display rounding of the model's rationals (>= 160 significant bits kept) when numerator/denominator exceed 400 bits",
     "scikit-learn (GaussianMixture initial guess) is outside: models are built with ClassicHmm(...) directly",
+    "a model object with GIVEN parameters cannot be made through the public API (the constructors train): it is a copy of a "
+    "HiddenMarkovModel / GaussianMixtureModel trained once per run through the public constructors, with n_states and the "
+    "parameter object replaced; the instance attribute that holds the parameters and the class of the parameter object are "
+    "learned from that trained object (positional field order K, mu, tau, pi, A resp. K, mu, tau, weights is assumed and "
+    "checked by reading the given parameters back); all parameters are read back through the public properties only",
 ]
 ASSUMPTIONS = [
     "theorems gamma_normalised / likelihood_exact / update_normalised assume every scaling factor c_t != 0 "
@@ -94,14 +107,16 @@ NEG_INF = float("-inf")
 # ------------------------------------------------------------------ implementation access
 
 
-def _lk():
-    from lumicks.pylake.channel import Continuous, Slice
-    from lumicks.pylake.population import dwelltime
-    from lumicks.pylake.population import hmm as pub
-    from lumicks.pylake.population import mixture
-    from lumicks.pylake.population.detail import hmm as det
+class TieLost(Exception):
+    """the harness cannot build the objects the property is about (reported as a broken tie, never as an answer of the code)"""
 
-    return Slice, Continuous, dwelltime, pub, det, mixture
+
+def _lk():
+    """the PUBLIC names only: the model classes as the package exports them, Slice / Continuous of the public channel module"""
+    import lumicks.pylake as lk
+    from lumicks.pylake.channel import Continuous, Slice
+
+    return Slice, Continuous, lk.HiddenMarkovModel, lk.GaussianMixtureModel
 
 
 @contextmanager
@@ -115,22 +130,192 @@ def quiet():
         warnings.showwarning = old
 
 
+# The property is about models with GIVEN parameters; the public constructors only TRAIN models.  A model object with given
+# parameters therefore has to be assembled by hand, which needs (i) the class of the parameter object and (ii) the instance
+# attribute the model class keeps it in.  Neither is named here: both are read off objects that the PUBLIC constructors built
+# (so a renamed slot, a renamed or moved parameter class or a moved module is followed).  The anchored algorithms
+# (forward_backward, calculate_temporary_variables, ClassicHmm.update, _dwellcounts_from_statepath) have no public name: they
+# are called directly while they are reachable under their anchored names; when one is not, its observations are "?" (ignored
+# by agree / oracle / nontrivial, never an answer of the implementation) and the same behaviour stays tied through the public
+# constructor / extract_dwell_times (see `pub1`, `chain`, the public twin of the `dwell` op).
+_LAYOUT = {}
+TEMPLATE_DATA = [0.0, 0.1, 10.0, 10.1, 0.05, 9.9, 0.0, 10.05, 0.1, 10.0, 9.95, 0.02, 10.1, 0.0, 10.0, 0.07]
+ANCHOR_MODULE = "lumicks.pylake.population.detail.hmm"
+ANCHOR_ALGOS = ("forward_backward", "calculate_temporary_variables")
+ANCHOR_UPDATE = "update"
+ANCHOR_DWELL = ("lumicks.pylake.population.dwelltime", "_dwellcounts_from_statepath")
+
+
+def _slots(obj):
+    """(name of the instance attribute holding what .fit_info returns, name of the one holding the parameter object)"""
+    attrs = dict(vars(obj))
+    info = obj.fit_info
+    fit = [n for n, v in attrs.items() if v is info]
+    cand = [n for n, v in attrs.items() if n not in fit and type(v).__module__.split(".")[:2] == ["lumicks", "pylake"]]
+    if len(cand) > 1:  # the one the public `means` reads from
+        means = obj.means
+        cand = [n for n in cand if any(v is means for v in getattr(attrs[n], "__dict__", {}).values())] or cand
+    if len(cand) != 1:
+        raise TieLost(f"cannot tell where {type(obj).__name__} keeps its parameters (instance attributes {sorted(attrs)})")
+    return (fit[0] if len(fit) == 1 else None), cand[0]
+
+
+def learned_layout():
+    if "error" in _LAYOUT:
+        raise TieLost(_LAYOUT["error"])
+    if not _LAYOUT:
+        import importlib
+
+        _, _, HMM, GMM = _lk()
+        state = np.random.get_state()  # scikit-learn's k-means initialisation draws from NumPy's global generator
+        L = {}
+        try:
+            with quiet():
+                np.random.seed(12345)
+                data = np.array(TEMPLATE_DATA)
+                g = GMM(data, 2)
+                h = HMM(data, 2, max_iter=1, initial_guess=g)
+            L["gmm_fit"], L["gmm_par"] = _slots(g)
+            L["hmm_fit"], L["hmm_par"] = _slots(h)
+            L["GmmPar"], L["HmmPar"] = type(getattr(g, L["gmm_par"])), type(getattr(h, L["hmm_par"]))
+            L["gmm_template"], L["hmm_template"] = g, h
+            L["learned"] = True
+            _LAYOUT.update(L)
+            _check_assembly()
+        except Exception as e:
+            # no usable template through the public constructors (that by itself is judged by the `init` cases): the anchored
+            # names, as far as they are there
+            why = str(e) if isinstance(e, TieLost) else f"no template model through the public constructors: {type(e).__name__} {str(e)[:120]}"
+            _LAYOUT.clear()
+            try:
+                L = {"gmm_fit": "_fit_info", "gmm_par": "_model", "hmm_fit": "_fit_info", "hmm_par": "_model", "gmm_template": None,
+                     "hmm_template": None, "learned": False, "HmmPar": importlib.import_module(ANCHOR_MODULE).ClassicHmm,
+                     "GmmPar": importlib.import_module("lumicks.pylake.population.mixture").ClassicGmm}
+                _LAYOUT.update(L)
+                _check_assembly()
+            except Exception:
+                _LAYOUT.clear()
+                _LAYOUT["error"] = why
+                raise TieLost(why)
+        finally:
+            np.random.set_state(state)
+        # the module of the anchored algorithms: under its anchored path, else wherever the parameter class of a trained
+        # HiddenMarkovModel is defined
+        try:
+            L["algos"] = importlib.import_module(ANCHOR_MODULE)
+            L["algos_at_anchor"] = True
+        except ImportError:
+            L["algos"] = sys.modules.get(L["HmmPar"].__module__)
+            L["algos_at_anchor"] = False
+        try:
+            L["dwell"] = getattr(importlib.import_module(ANCHOR_DWELL[0]), ANCHOR_DWELL[1], None)
+        except ImportError:
+            L["dwell"] = None
+        _LAYOUT.update(L)
+    return _LAYOUT
+
+
+def _check_assembly():
+    """set-up check, once per run: a model object assembled by hand reports, through its PUBLIC properties, exactly the
+    parameters it was given (so the slot, the parameter classes and their positional field order are what is assumed here)"""
+    mu, tau, pi, A, w = [1.5, 4.25], [4.0, 0.5], [0.25, 0.75], [[0.875, 0.125], [0.375, 0.625]], [0.125, 0.875]
+    try:
+        h = stub_hmm(hmm_params(2, mu, tau, pi, A), 2)
+        g = stub_gmm(2, mu, tau, w)
+        ok = (h.n_states == 2 and g.n_states == 2 and [r.tolist() for r in reported(h)] == [pi, A, mu, [1.0 / t for t in tau]]
+              and np.array(g.means, dtype=float).tolist() == mu and np.array(g.variances, dtype=float).tolist() == [1.0 / t for t in tau]
+              and np.array(g.weights, dtype=float).tolist() == w)
+    except TieLost:
+        raise
+    except Exception as e:
+        raise TieLost(f"a model object with given parameters cannot be assembled: {type(e).__name__} {str(e)[:120]}")
+    if not ok:
+        raise TieLost("a model object assembled with given parameters does not report them through its public properties")
+
+
+class Unreachable(Exception):
+    """an anchored private function is not reachable under its name / with its anchored signature"""
+
+
+def anchored(f, *args, returns=None, **kw):
+    """call an anchored private function.  Not there, a call that does not even bind, or another number of results: the direct
+    tie is lost (Unreachable: the observations become "?"), which says nothing about what the code computes"""
+    if not callable(f):
+        raise Unreachable()
+    try:
+        r = f(*args, **kw)
+    except TypeError as e:
+        if _raised_in_harness(e):  # raised by the call itself, not inside the function
+            raise Unreachable()
+        raise
+    if returns is not None and not (isinstance(r, tuple) and len(r) == returns):
+        raise Unreachable()
+    return r
+
+
+def algo(name):
+    """an anchored function of the HMM algorithms module, or None when it is not reachable under that name"""
+    f = getattr(learned_layout()["algos"], name, None)
+    return f if callable(f) else None
+
+
+def private_ties():
+    """which of the private ties were reachable in this run (evidence)"""
+    try:
+        L = learned_layout()
+    except TieLost as e:
+        return {"error": str(e)}
+    return {
+        "model layout": "learned from publicly trained objects" if L["learned"] else "anchored names (no template through the public constructors)",
+        "HiddenMarkovModel parameter slot": L["hmm_par"],
+        "HiddenMarkovModel fit-info slot": L["hmm_fit"], "GaussianMixtureModel parameter slot": L["gmm_par"],
+        "GaussianMixtureModel fit-info slot": L["gmm_fit"],
+        "parameter classes": [f"{c.__module__}.{c.__qualname__}" for c in (L["HmmPar"], L["GmmPar"])],
+        f"module {ANCHOR_MODULE}": "reachable" if L["algos_at_anchor"] else f"moved, followed to {getattr(L['algos'], '__name__', None)}",
+        **{n: ("reachable" if algo(n) else "not reachable: observations '?', public twin only") for n in ANCHOR_ALGOS},
+        f"ClassicHmm.{ANCHOR_UPDATE}": "reachable" if callable(getattr(L["HmmPar"], ANCHOR_UPDATE, None)) else "not reachable: observations '?', public twin only",
+        ANCHOR_DWELL[1]: "reachable" if L["dwell"] else "not reachable: observations '?', public twin only",
+    }
+
+
+def hmm_params(K, mu, tau, pi, A):
+    """the parameter object of a hidden Markov model (anchored ClassicHmm: K, mu, tau, pi, A)"""
+    return learned_layout()["HmmPar"](int(K), np.array(mu, dtype=float), np.array(tau, dtype=float), np.array(pi, dtype=float),
+                              np.array(A, dtype=float).reshape(int(K), int(K)))
+
+
 def classic(case):
-    _, _, _, _, det, _ = _lk()
-    return det.ClassicHmm(
-        case["K"], np.array(case["mu"], dtype=float), np.array(case["tau"], dtype=float),
-        np.array(case["pi"], dtype=float), np.array(case["A"], dtype=float).reshape(case["K"], case["K"]),
-    )
+    return hmm_params(case["K"], case["mu"], case["tau"], case["pi"], case["A"])
 
 
-def stub_hmm(model):
-    """a HiddenMarkovModel with given parameters (the constructor would train it)"""
-    _, _, _, pub, _, _ = _lk()
-    h = pub.HiddenMarkovModel.__new__(pub.HiddenMarkovModel)
-    h.n_states = model.K
-    h._model = model
-    h._fit_info = None
+def stub_hmm(model, K):
+    """a HiddenMarkovModel with given parameters (the constructor would train it): a copy of a publicly trained object whose
+    parameter object is replaced"""
+    L = learned_layout()
+    # (a copy: whatever else the constructor sets up stays in place)
+    h = copy.deepcopy(L["hmm_template"]) if L["hmm_template"] is not None else _lk()[2].__new__(_lk()[2])
+    h.n_states = int(K)
+    setattr(h, L["hmm_par"], model)
+    if L["hmm_fit"]:
+        setattr(h, L["hmm_fit"], None)
     return h
+
+
+def stub_gmm(K, mu, tau, weights):
+    """a GaussianMixtureModel with given parameters"""
+    L = learned_layout()
+    g = copy.deepcopy(L["gmm_template"]) if L["gmm_template"] is not None else _lk()[3].__new__(_lk()[3])
+    g.n_states = int(K)
+    setattr(g, L["gmm_par"], L["GmmPar"](int(K), np.array(mu, dtype=float), np.array(tau, dtype=float), np.array(weights, dtype=float)))
+    if L["gmm_fit"]:
+        setattr(g, L["gmm_fit"], None)
+    return g
+
+
+def reported(h):
+    """the parameters of a model object as its PUBLIC properties report them: pi, A, means, variances (float arrays)"""
+    return (np.array(h.initial_state_probability, dtype=float), np.atleast_2d(np.array(h.transition_matrix, dtype=float)),
+            np.array(h.means, dtype=float), np.array(h.variances, dtype=float))
 
 
 def public_params(h):
@@ -203,15 +388,10 @@ def retype(data, dtype):
 def seq_model(kind, K):
     """a model OBJECT with well separated states (means 10*j, sd 0.1, uniform pi/A resp. weights): every label sequence is
     the unique optimal decoding of the trace `seq_trace` builds from it"""
-    _, _, _, pub, det, mixture = _lk()
     mu = np.array([10.0 * j for j in range(K)])
     if kind == "gmm":
-        g = mixture.GaussianMixtureModel.__new__(mixture.GaussianMixtureModel)
-        g.n_states = K
-        g._model = mixture.ClassicGmm(K, mu, np.full(K, 100.0), np.full(K, 1.0 / K))
-        g._fit_info = None
-        return g
-    return stub_hmm(det.ClassicHmm(K, mu, np.full(K, 100.0), np.full(K, 1.0 / K), np.full((K, K), 1.0 / K)))
+        return stub_gmm(K, mu, np.full(K, 100.0), np.full(K, 1.0 / K))
+    return stub_hmm(hmm_params(K, mu, np.full(K, 100.0), np.full(K, 1.0 / K), np.full((K, K), 1.0 / K)), K)
 
 
 def seq_trace(labels, start, dt):
@@ -274,6 +454,8 @@ def impl_seq(case):
                 out.append(f"state_path of this model object decodes {peeks[0]}, a fresh model with the same parameters {labels}")
                 continue
             out.append(counts_of_times(times, dt))
+        except TieLost:
+            raise
         except Exception as e:
             out.append(errname(e))
     return out
@@ -531,6 +713,8 @@ def impl(case):
     try:
         with quiet():
             return _remember(case, _impl(case))
+    except TieLost as e:  # the harness could not build its objects: a broken tie (reported as such), not an answer of the code
+        return _remember(case, ["Error:TieBroken:" + str(e)[:200]] * n_ops(case))
     except Exception as e:  # mapped to the small enum; compared with the model's error answer
         return _remember(case, [errname(e)] * n_ops(case))
 
@@ -546,50 +730,113 @@ def n_ops(case):
     return 2 if case["op"] == "dwell" else 1
 
 
+CHAIN_T = 64  # traces up to this length: the Baum-Welch iterations are ALSO observed one by one through the public constructor
+
+
+def shown(h):
+    """the parameters a model object reports (public properties) as bit patterns: pi, A rows, means, variances"""
+    pi, A, mu, var = reported(h)
+    return fl(pi), [fl(r) for r in A], fl(mu), fl(var)
+
+
+def em_step_report(h):
+    """what the normalisation clause looks at after one Baum-Welch iteration, from the PUBLIC properties of the model object"""
+    pi, A, mu, var = reported(h)
+    with np.errstate(all="ignore"):
+        return float(np.sum(pi)), float(np.max(np.abs(np.sum(A, axis=1) - 1.0))), float(np.max(1.0 / var))
+
+
+def public_dwell_counts(labels, exclude):
+    """the counts of the `dwell` op through the PUBLIC extract_dwell_times (labels 0..K-1 as the unique decoding of a trace of
+    a well separated model): used when the anchored private function is not reachable; "?" where that route does not exist
+    (negative / NaN labels, empty path)"""
+    if not labels or any(s is None or int(s) != s or not 0 <= s <= 8 for s in labels):
+        return "?"
+    labels = [int(s) for s in labels]
+    K = max(labels) + 1
+    try:
+        if not decodes_trivially("hmm", K, labels):
+            return "?"
+        times = seq_model("hmm", K).extract_dwell_times(seq_trace(labels, 0, 1000), exclude_ambiguous_dwells=exclude)
+    except TieLost:
+        raise
+    except Exception as e:
+        return errname(e)
+    return counts_of_times(times, 1000)
+
+
 def _impl(case):
-    Slice, Continuous, dwelltime, pub, det, mixture = _lk()
+    Slice, Continuous, HMM, GMM = _lk()
     k = case["op"]
     if k == "vit":
-        h = stub_hmm(classic(case))
+        h = stub_hmm(classic(case), case["K"])
         path = h.state_path(obs_trace(case)).data
         return [json.dumps({"path": [int(s) for s in path]})]
     if k == "fb":
+        K = case["K"]
         model = classic(case)
         data = obs_array(case)
-        alpha, beta, c, B = det.forward_backward(data, model)
-        gamma, xi, ll = det.calculate_temporary_variables(model, alpha, beta, c, B)
-        new = model.update(data, gamma, xi)
-        return [json.dumps({
-            "c": fl(c), "gamma": [fl(r) for r in gamma], "xi": [fl(np.asarray(x).ravel()) for x in xi], "ll": enc_float(ll),
-            "pi2": fl(new.pi), "A2": [fl(r) for r in np.atleast_2d(new.A)], "mu2": fl(new.mu), "var2": fl(1.0 / np.asarray(new.tau)),
-        })]
+        out = {f: "?" for f in ("c", "gamma", "xi", "ll", "pi2", "A2", "mu2", "var2")}
+        # the anchored functions, while they are reachable under their names
+        try:
+            alpha, beta, c, B = anchored(algo(ANCHOR_ALGOS[0]), data, model, returns=4)
+            out["c"] = fl(c)
+            gamma, xi, ll = anchored(algo(ANCHOR_ALGOS[1]), model, alpha, beta, c, B, returns=3)
+            out.update(gamma=[fl(r) for r in gamma], xi=[fl(np.asarray(x).ravel()) for x in xi], ll=enc_float(ll))
+            # the updated parameters are read through the public properties of a model object holding them
+            new = anchored(getattr(model, ANCHOR_UPDATE, None), data, gamma, xi)
+            out["pi2"], out["A2"], out["mu2"], out["var2"] = shown(stub_hmm(new, K))
+        except Unreachable:
+            pass
+        # the same E-step + M-step through the PUBLIC constructor: one Baum-Welch iteration started from the model
+        hm = HMM(obs_array(case), K, tol=0.0, max_iter=1, initial_guess=stub_hmm(classic(case), K))
+        out["pub1"] = public_params(hm)
+        out["pub1"]["var"] = shown(hm)[3]
+        return [json.dumps(out)]
     if k == "em":
+        K = case["K"]
         model = classic(case)
         data = obs_array(case)
         n = case["iters"]
         lls, pisum, rowdev, occ, taumax = [], [], [], [], []
-        gamma, xi, ll = det.calculate_temporary_variables(model, *det.forward_backward(data, model))
-        lls.append(ll)
-        for _ in range(n):
-            model = model.update(data, gamma, xi)
-            gamma, xi, ll = det.calculate_temporary_variables(model, *det.forward_backward(data, model))
+        try:
+            fwd, tmp = algo(ANCHOR_ALGOS[0]), algo(ANCHOR_ALGOS[1])
+            gamma, xi, ll = anchored(tmp, model, *anchored(fwd, data, model, returns=4), returns=3)
             lls.append(ll)
-            pisum.append(float(np.sum(model.pi)))
-            rowdev.append(float(np.max(np.abs(np.sum(model.A, axis=1) - 1.0))))
-            occ.append(float(np.min(np.sum(gamma[:-1], axis=0))))
-            taumax.append(float(np.max(model.tau)))
+            for _ in range(n):
+                model = anchored(getattr(model, ANCHOR_UPDATE, None), data, gamma, xi)
+                gamma, xi, ll = anchored(tmp, model, *anchored(fwd, data, model, returns=4), returns=3)
+                lls.append(ll)
+                ps, rd, tm = em_step_report(stub_hmm(model, K))
+                pisum.append(ps)
+                rowdev.append(rd)
+                occ.append(float(np.min(np.sum(gamma[:-1], axis=0))))
+                taumax.append(tm)
+            manual = True
+        except Unreachable:  # an anchored E/M function is not reachable: the iterations are observed through the public chain only
+            manual, lls, pisum, rowdev, occ, taumax = False, [], [], [], [], []
         # the same through the public constructor
         # (the constructor takes the observations as an array or as a Slice)
         given = obs_trace(case) if case.get("container") == "slice" else obs_array(case)
-        hm = pub.HiddenMarkovModel(given, case["K"], tol=case.get("tol", 0.0), max_iter=n, initial_guess=stub_hmm(classic(case)))
+        hm = HMM(given, K, tol=case.get("tol", 0.0), max_iter=n, initial_guess=stub_hmm(classic(case), K))
         ret = public_params(hm)  # the trained model as the constructor hands it over
         path = hm.state_path(obs_trace(case)).data
         # ... and the trained model OBJECT as the starting point of one more Baum-Welch iteration (warm start)
-        warm = pub.HiddenMarkovModel(given, case["K"], tol=0.0, max_iter=1, initial_guess=hm)
+        warm = HMM(given, K, tol=0.0, max_iter=1, initial_guess=hm)
         wp = public_params(warm)
         end = public_params(hm)  # the same object once more, after it has been used
+        # ... and the iterations one by one through the public constructor (each started from the previous model OBJECT):
+        # the public twin of the manual E/M steps; for every trace length when those are not reachable
+        chain = "?"
+        if not manual or len(case["data"]) <= CHAIN_T:
+            chain, cur = [], stub_hmm(classic(case), K)
+            for _ in range(n):
+                cur = HMM(given, K, tol=0.0, max_iter=1, initial_guess=cur)
+                ps, rd, tm = em_step_report(cur)
+                chain.append(dict(public_params(cur), pisum=enc_float(ps), rowdev=enc_float(rd), taumax=enc_float(tm)))
         out = json.dumps({
-            "path": [int(s) for s in path], "ll": fl(lls), "pisum": fl(pisum), "rowdev": fl(rowdev), "occ": fl(occ), "taumax": fl(taumax),
+            "path": [int(s) for s in path], "ll": fl(lls) if manual else "?", "pisum": fl(pisum), "rowdev": fl(rowdev), "occ": fl(occ),
+            "taumax": fl(taumax), "chain": chain,
             "pub_ll": end["ll"], "pub_iter": int(hm.fit_info.n_iter), "pub_conv": bool(hm.fit_info.converged),
             "pub_pi": end["pi"], "pub_A": end["A"], "pub_mu": end["mu"], "pub_tau": end["tau"],
             "ret": ret, "warm": wp, "warm_iter": int(warm.fit_info.n_iter),
@@ -597,7 +844,12 @@ def _impl(case):
         return [out] * n_ops(case)
     if k == "dwell":
         path = [float("nan") if s is None else s for s in case["path"]]
-        counts, ranges = dwelltime._dwellcounts_from_statepath(np.array(path), exclude_ambiguous_dwells=case["exclude"])
+        try:
+            counts, ranges = anchored(learned_layout()["dwell"], np.array(path), exclude_ambiguous_dwells=case["exclude"], returns=2)
+        except Unreachable:
+            # the anchored private function is not reachable under its name: its ranges cannot be observed ("?"); the counts
+            # stay tied through the public extract_dwell_times where the labels can be produced by a model
+            return ["?", public_dwell_counts(case["path"], case["exclude"])]
         ranges = {s: [tuple(r) for r in np.asarray(v).reshape(-1, 2)] for s, v in ranges.items()}
         counts = {s: list(np.atleast_1d(v)) for s, v in counts.items()}
         return [show_dwells(ranges), show_counts(counts)]
@@ -606,7 +858,7 @@ def _impl(case):
         K = case["K"]
         mu = [10.0 * j for j in range(K)]
         A = [[1.0 / K] * K for _ in range(K)]
-        h = stub_hmm(det.ClassicHmm(K, np.array(mu), np.full(K, 100.0), np.full(K, 1.0 / K), np.array(A)))
+        h = stub_hmm(hmm_params(K, mu, np.full(K, 100.0), np.full(K, 1.0 / K), A), K)
         tr = trace_of([mu[s] for s in labels], case["dt"])
         if [int(s) for s in h.state_path(tr).data] != list(labels):
             return ["setup-failure: decoded path differs from the labels"]
@@ -627,12 +879,10 @@ def _impl(case):
             m = case["guess_n"]
             mu = np.array([10.0 * j for j in range(m)])
             if g == "hmm":
-                guess = stub_hmm(det.ClassicHmm(m, mu, np.full(m, 4.0), np.full(m, 1.0 / m), np.full((m, m), 1.0 / m)))
+                guess = stub_hmm(hmm_params(m, mu, np.full(m, 4.0), np.full(m, 1.0 / m), np.full((m, m), 1.0 / m)), m)
             else:
-                guess = mixture.GaussianMixtureModel.__new__(mixture.GaussianMixtureModel)
-                guess.n_states = m
-                guess._model = mixture.ClassicGmm(m, mu, np.full(m, 4.0), np.full(m, 1.0 / m))
-        pub.HiddenMarkovModel(data, K, max_iter=1, initial_guess=guess)
+                guess = stub_gmm(m, mu, np.full(m, 4.0), np.full(m, 1.0 / m))
+        HMM(data, K, max_iter=1, initial_guess=guess)
         return ["ok"]
     raise ValueError(k)
 
@@ -727,47 +977,70 @@ def fclose(x, q, scale=1.0):
     return math.isfinite(x) and abs(x - q) <= TOL * scale
 
 
+def got(d, f):
+    """an observation of the implementation, or None where the harness could not make it ("?": a private tie that is not
+    reachable; such an entry is never compared)"""
+    v = d.get(f, "?")
+    return None if isinstance(v, str) and v == "?" else v
+
+
 def fb_agree(case, ia, ma):
     if is_err(ia) or is_err(ma):
         return ia == ma
     d = json.loads(ia)
-    c = unfl(d["c"])
+    pub = got(d, "pub1")
+    c = unfl(got(d, "c")) if got(d, "c") is not None else None
     if ma == "degenerate":
-        return not all(math.isfinite(v) and v > 0 for v in c)
+        if c is not None:
+            return not all(math.isfinite(v) and v > 0 for v in c)
+        return pub is None or not math.isfinite(dec_float(pub["ll"]))
     toks = ma.split(" ")
     if len(toks) != 7:
         return False
     K, T = case["K"], len(case["data"])
     mc, mg, mx, mpi, mA, mmu, mvar = (dec_ratlist(toks[0]), dec_ratll(toks[1]), dec_ratll(toks[2]), dec_ratlist(toks[3]),
                                        dec_ratll(toks[4]), dec_ratlist(toks[5]), dec_ratlist(toks[6]))
-    if len(mc) != T or len(c) != T:
+    if len(mc) != T:
         return False
-    if not all(fclose(a, b, abs(b)) for a, b in zip(c, mc)):
-        return False
-    g = [unfl(r) for r in d["gamma"]]
-    if len(g) != len(mg) or not all(len(a) == len(b) and all(fclose(u, v) for u, v in zip(a, b)) for a, b in zip(g, mg)):
-        return False
-    x = [unfl(r) for r in d["xi"]]
-    if len(x) != len(mx) or not all(len(a) == len(b) and all(fclose(u, v) for u, v in zip(a, b)) for a, b in zip(x, mx)):
-        return False
-    logs = [math.log(v) for v in mc]
-    if not fclose(dec_float(d["ll"]), math.fsum(logs), 1.0 + sum(abs(v) for v in logs)):
-        return False
-    if not all(fclose(u, v) for u, v in zip(unfl(d["pi2"]), mpi)):
-        return False
+    if c is not None:
+        if len(c) != T or not all(fclose(a, b, abs(b)) for a, b in zip(c, mc)):
+            return False
+    if got(d, "gamma") is not None:
+        g = [unfl(r) for r in d["gamma"]]
+        if len(g) != len(mg) or not all(len(a) == len(b) and all(fclose(u, v) for u, v in zip(a, b)) for a, b in zip(g, mg)):
+            return False
+    if got(d, "xi") is not None:
+        x = [unfl(r) for r in d["xi"]]
+        if len(x) != len(mx) or not all(len(a) == len(b) and all(fclose(u, v) for u, v in zip(a, b)) for a, b in zip(x, mx)):
+            return False
+    if got(d, "ll") is not None:
+        logs = [math.log(v) for v in mc]
+        if not fclose(dec_float(d["ll"]), math.fsum(logs), 1.0 + sum(abs(v) for v in logs)):
+            return False
     xmax = max(1.0, max(abs(v) for v in case["data"]))
     occ_all = [sum(r[i] for r in mg) for i in range(K)]
     occ_head = [sum(r[i] for r in mg[:-1]) for i in range(K)]
-    A2 = [unfl(r) for r in d["A2"]]
-    for i in range(K):
-        if T >= 2 and occ_head[i] > 1e-6:
-            if not all(fclose(u, v) for u, v in zip(A2[i], mA[i])):
-                return False
-        if occ_all[i] > 1e-6:
-            if not fclose(unfl(d["mu2"])[i], mmu[i], xmax):
-                return False
-            if not fclose(unfl(d["var2"])[i], mvar[i], xmax * xmax):
-                return False
+    # the updated parameters: from the anchored update (while reachable) and from one Baum-Welch iteration through the
+    # public constructor; the same comparison for both
+    updates = []
+    if got(d, "pi2") is not None:
+        updates.append((unfl(d["pi2"]), [unfl(r) for r in d["A2"]], unfl(d["mu2"]), unfl(d["var2"])))
+    if pub is not None:
+        updates.append((unfl(pub["pi"]), [unfl(r) for r in pub["A"]], unfl(pub["mu"]), unfl(pub["var"])))
+    for pi2, A2, mu2, var2 in updates:
+        if len(pi2) != len(mpi) or not all(fclose(u, v) for u, v in zip(pi2, mpi)):
+            return False
+        if len(A2) != K or len(mu2) != K or len(var2) != K:
+            return False
+        for i in range(K):
+            if T >= 2 and occ_head[i] > 1e-6:
+                if len(A2[i]) != len(mA[i]) or not all(fclose(u, v) for u, v in zip(A2[i], mA[i])):
+                    return False
+            if occ_all[i] > 1e-6:
+                if not fclose(mu2[i], mmu[i], xmax):
+                    return False
+                if not fclose(var2[i], mvar[i], xmax * xmax):
+                    return False
     return True
 
 
@@ -798,6 +1071,8 @@ def agree(case, i, ia, ma):
         return vit_agree(ia, ma) if i == 0 else em_ll_agree(ia, ma)
     if k == "fb":
         return fb_agree(case, ia, ma)
+    if ia == "?":  # an observation the harness could not make (private tie not reachable): nothing to compare
+        return True
     return ia == ma
 
 
@@ -834,88 +1109,148 @@ def oracle_vit(K, pi, A, mu, tau, data, path):
 def oracle_fb(case, d):
     K, T = case["K"], len(case["data"])
     A = square(case)
-    c = unfl(d["c"])
-    g = [unfl(r) for r in d["gamma"]]
-    x = [[r[i * K:(i + 1) * K] for i in range(K)] for r in (unfl(r) for r in d["xi"])]
-    ll = dec_float(d["ll"])
-    if len(g) != T or len(x) != max(T - 1, 0):
-        return f"shapes: gamma has {len(g)} rows, xi {len(x)} for T={T}"
-    flat = c + [v for r in g for v in r] + [v for m in x for r in m for v in r] + [ll]
+    # what could be observed: the anchored functions' c / gamma / xi / log-likelihood / update (each None when that private
+    # tie is not reachable) and one Baum-Welch iteration through the public constructor (pub)
+    c = unfl(d["c"]) if got(d, "c") is not None else None
+    g = [unfl(r) for r in d["gamma"]] if got(d, "gamma") is not None else None
+    x = [[r[i * K:(i + 1) * K] for i in range(K)] for r in (unfl(r) for r in d["xi"])] if got(d, "xi") is not None else None
+    ll = dec_float(d["ll"]) if got(d, "ll") is not None else None
+    pub = got(d, "pub1")
+    if (g is not None and len(g) != T) or (x is not None and len(x) != max(T - 1, 0)):
+        return f"shapes: gamma has {len(g) if g is not None else '?'} rows, xi {len(x) if x is not None else '?'} for T={T}"
+    flat = ((c or []) + [v for r in (g or []) for v in r] + [v for m in (x or []) for r in m for v in r] + ([ll] if ll is not None else [])
+            + (unfl(pub["pi"]) if pub is not None else []))
     if not all(math.isfinite(v) for v in flat):
         return "posteriors: non-finite value in c/gamma/xi/log-likelihood for a model under which the data are possible"
-    for t in range(T):
+    for t in range(T if g is not None else 0):
         if abs(sum(g[t]) - 1.0) > TOL:
             return f"gamma-normalised: sum_i gamma[{t}][i] = {sum(g[t])!r}"
-    for t in range(T - 1):
+    for t in range(T - 1 if g is not None and x is not None else 0):
         for i in range(K):
             if abs(sum(x[t][i]) - g[t][i]) > TOL:
                 return f"xi-marginal: sum_j xi[{t}][{i}][j] = {sum(x[t][i])!r} but gamma[{t}][{i}] = {g[t][i]!r}"
             if abs(sum(x[t][j][i] for j in range(K)) - g[t + 1][i]) > TOL:
                 return f"xi-marginal: sum_i xi[{t}][i][{i}] differs from gamma[{t + 1}][{i}] = {g[t + 1][i]!r}"
-    lscale = 1.0 + sum(abs(math.log(v)) for v in c)
+    if c is not None:
+        lscale = 1.0 + sum(abs(math.log(v)) for v in c)
+    else:
+        lscale = loglik_and_scale(K, case["pi"], A, case["mu"], case["tau"], case["data"])[1]
+    G0 = occ_ref = None  # exact gamma[0] and state occupancies before the last time point, where all paths are summed
     if K ** T <= BRUTE_LIMIT:
         B = [[math.exp(gauss_logpdf(xv, case["mu"][j], case["tau"][j])) for j in range(K)] for xv in case["data"]]
         L, G, X = brute_posteriors(K, case["pi"], A, B)
         if L <= 0:
             return None
-        if abs(ll - math.log(L)) > TOL * lscale:
+        G0 = [float(v / L) for v in G[0]]
+        occ_ref = [float(sum(G[t][i] for t in range(T - 1)) / L) for i in range(K)]
+        if ll is not None and abs(ll - math.log(L)) > TOL * lscale:
             return f"likelihood-exact: reported log-likelihood {ll!r}, log of the sum over all {K ** T} paths {math.log(L)!r}"
-        for t in range(T):
+        for t in range(T if g is not None else 0):
             for i in range(K):
                 if abs(g[t][i] - float(G[t][i] / L)) > TOL:
                     return f"gamma-exact: gamma[{t}][{i}] = {g[t][i]!r}, sum over paths gives {float(G[t][i] / L)!r}"
-        for t in range(T - 1):
+        for t in range(T - 1 if x is not None else 0):
             for i in range(K):
                 for j in range(K):
                     if abs(x[t][i][j] - float(X[t][i][j] / L)) > TOL:
                         return f"xi-exact: xi[{t}][{i}][{j}] = {x[t][i][j]!r}, sum over paths gives {float(X[t][i][j] / L)!r}"
-    else:
+    elif ll is not None:
         ref = loglik_logspace(K, case["pi"], A, case["mu"], case["tau"], case["data"])
         if abs(ll - ref) > TOL * lscale:
             return f"likelihood-exact: reported log-likelihood {ll!r}, log-space forward recursion {ref!r}"
-    pi2 = unfl(d["pi2"])
-    if abs(sum(pi2) - 1.0) > TOL or any(abs(a - b) > TOL for a, b in zip(pi2, g[0])):
-        return f"update-normalised: new initial distribution {pi2} (sum {sum(pi2)!r}) is not gamma[0]"
-    if T >= 2:
-        A2 = [unfl(r) for r in d["A2"]]
-        for i in range(K):
-            if sum(r[i] for r in g[:-1]) > 1e-6 and not abs(sum(A2[i]) - 1.0) <= TOL:
-                return f"update-normalised: row {i} of the new transition matrix sums to {sum(A2[i])!r}"
+    # the update step: the new initial distribution is the posterior of the first sample, it and every row of the new
+    # transition matrix are normalised -- from the anchored update and from the public constructor alike
+    updates = []
+    if got(d, "pi2") is not None:
+        updates.append(("", unfl(d["pi2"]), [unfl(r) for r in d["A2"]]))
+    if pub is not None:
+        updates.append((f" of HiddenMarkovModel(data, {K}, tol=0, max_iter=1, initial_guess=<the model>)", unfl(pub["pi"]),
+                        [unfl(r) for r in pub["A"]]))
+    first = g[0] if g is not None else G0
+    occ = [sum(r[i] for r in g[:-1]) for i in range(K)] if g is not None else occ_ref
+    for what, pi2, A2 in updates:
+        if not abs(sum(pi2) - 1.0) <= TOL or (first is not None and not all(abs(a - b) <= TOL for a, b in zip(pi2, first))):
+            return (f"update-normalised: new initial distribution{what} {pi2} (sum {sum(pi2)!r}) is not "
+                    f"{'gamma[0]' if g is not None else f'the exact posterior of the first sample {first}'}")
+        if T >= 2 and occ is not None:
+            for i in range(K):
+                if occ[i] > 1e-6 and not abs(sum(A2[i]) - 1.0) <= TOL:
+                    return f"update-normalised: row {i} of the new transition matrix{what} sums to {sum(A2[i])!r}"
+    if pub is not None and T >= 2:
+        # ... and the log-likelihood that object reports is the exact one of the parameters it reports
+        return oracle_reported_ll(K, pub, case["data"], f"HiddenMarkovModel(data, {K}, tol=0, max_iter=1, initial_guess=<the model>)")
     return None
 
 
-def oracle_em(case, d):
-    K = case["K"]
-    ll = unfl(d["ll"])
-    n = case["iters"]
-    if len(ll) != n + 1:
-        return f"em: {len(ll)} log-likelihoods for {n} iterations"
-    occ = unfl(d["occ"])
-    taumax = unfl(d["taumax"])
+def oracle_em_steps(ll, pisum, rowdev, taumax, occ, what):
+    """the per-iteration clauses on one observed sequence of Baum-Welch iterations (ll[0]: the starting model, ll[k]: after
+    iteration k).  Returns (clause | None, degenerate)"""
+    n = len(ll) - 1
     for k in range(n):
-        if not (math.isfinite(ll[k]) and math.isfinite(ll[k + 1])) or not occ[k] > 1e-6:
-            return None  # degenerate run (variance collapse / empty state): not covered, counted as dropped
+        if not (math.isfinite(ll[k]) and math.isfinite(ll[k + 1])) or (occ is not None and not occ[k] > 1e-6) or (
+                occ is None and not (math.isfinite(pisum[k]) and math.isfinite(rowdev[k]) and math.isfinite(taumax[k]))):
+            # degenerate run (variance collapse / empty state; where the state occupancies cannot be observed: a model
+            # with non-finite parameters): not covered, counted as dropped
+            return None, True
         # A state that has taken over a stretch of identical observations (common in integer traces) gets a variance that is
         # rounding noise of its mean (1e-28 for counts of 12): the Gaussian is singular, the likelihood unbounded and its computed
         # value noise.  The ascent is not compared across a step that starts or ends in such a model (counted)
         collapsed = not taumax[k] <= TAU_COLLAPSED or (k > 0 and not taumax[k - 1] <= TAU_COLLAPSED)
         if not collapsed and ll[k + 1] < ll[k] - TOL * max(1.0, abs(ll[k])):
-            return f"em-monotone: log-likelihood fell from {ll[k]!r} to {ll[k + 1]!r} in Baum-Welch iteration {k + 1}"
-        if abs(unfl(d["pisum"])[k] - 1.0) > TOL:
-            return f"update-normalised: initial distribution sums to {unfl(d['pisum'])[k]!r} after iteration {k + 1}"
-        if not unfl(d["rowdev"])[k] <= TOL:
-            return f"update-normalised: a transition-matrix row is off 1 by {unfl(d['rowdev'])[k]!r} after iteration {k + 1}"
-    # the public constructor stops at the first iteration whose log-likelihood step is below `tol`
+            return f"em-monotone: log-likelihood fell from {ll[k]!r} to {ll[k + 1]!r} in Baum-Welch iteration {k + 1}{what}", False
+        if abs(pisum[k] - 1.0) > TOL:
+            return f"update-normalised: initial distribution sums to {pisum[k]!r} after iteration {k + 1}{what}", False
+        if not rowdev[k] <= TOL:
+            return f"update-normalised: a transition-matrix row is off 1 by {rowdev[k]!r} after iteration {k + 1}{what}", False
+    return None, False
+
+
+def oracle_em(case, d):
+    K = case["K"]
+    n = case["iters"]
     tol = case.get("tol", 0.0)
-    stop = next((k for k in range(1, n + 1) if abs(ll[k] - ll[k - 1]) < tol), None)
-    n_pub = stop if stop is not None else n
+    # the iterations as observed (i) on the anchored E/M functions (None when they are not reachable) and (ii) one by one
+    # through the public constructor, each started from the previous model object (ll[0], which no public name reports, is
+    # then the oracle's own log-likelihood of the starting model)
+    ll = None
+    if got(d, "ll") is not None:
+        ll = unfl(d["ll"])
+        if len(ll) != n + 1:
+            return f"em: {len(ll)} log-likelihoods for {n} iterations"
+        bad, degenerate = oracle_em_steps(ll, unfl(d["pisum"]), unfl(d["rowdev"]), unfl(d["taumax"]), unfl(d["occ"]), "")
+        if bad or degenerate:
+            return bad
+    chain = got(d, "chain")
+    if chain is not None:
+        if len(chain) != n:
+            return f"em: {len(chain)} models for {n} single iterations"
+        ll0 = ll[0] if ll is not None else loglik_and_scale(K, case["pi"], square(case), case["mu"], case["tau"], case["data"])[0]
+        cll = [ll0] + [dec_float(c["ll"]) for c in chain]
+        bad, degenerate = oracle_em_steps(cll, [dec_float(c["pisum"]) for c in chain], [dec_float(c["rowdev"]) for c in chain],
+                                          [dec_float(c["taumax"]) for c in chain], None,
+                                          " (iterations made one by one by HiddenMarkovModel(..., tol=0, max_iter=1, initial_guess=<previous model>))")
+        if bad or degenerate:
+            return bad
+        if ll is None:
+            ll = cll
     pub_ll = dec_float(d["pub_ll"])
-    if d["pub_iter"] != n_pub or d["pub_conv"] != (stop is not None):
-        return (f"fit-info: HiddenMarkovModel(..., tol={tol}, max_iter={n}) reports n_iter={d['pub_iter']}, converged={d['pub_conv']}; "
-                f"the log-likelihood steps {[ll[k] - ll[k - 1] for k in range(1, n + 1)]} give n_iter={n_pub}, converged={stop is not None}")
-    if abs(pub_ll - ll[n_pub]) > TOL * max(1.0, abs(ll[n_pub])):
-        return (f"fit-info: HiddenMarkovModel(...).fit_info reports log-likelihood {pub_ll!r} after {d['pub_iter']} iterations, "
-                f"the returned model's exact log-likelihood (E/M steps) is {ll[n_pub]!r}")
+    if ll is not None:
+        # the public constructor stops at the first iteration whose log-likelihood step is below `tol`
+        steps = [abs(ll[k] - ll[k - 1]) for k in range(1, n + 1)]
+        stop = next((k for k in range(1, n + 1) if steps[k - 1] < tol), None)
+        n_pub = stop if stop is not None else n
+        # the stopping rule is a decision on floats: no verdict when a step up to the stopping one is within last-bit distance
+        # of tol (the constructor need not add up the same doubles in the same order as the anchored functions; ll[0] of the
+        # oracle's own recursion, used when those are not reachable, is only good to TOL * scale)
+        tie = tol > 0 and any(abs(steps[k - 1] - tol) <= (TOL if k == 1 and got(d, "ll") is None else 1e-11) * max(1.0, abs(ll[k - 1]))
+                              for k in range(1, n_pub + 1))
+        if not tie:
+            if d["pub_iter"] != n_pub or d["pub_conv"] != (stop is not None):
+                return (f"fit-info: HiddenMarkovModel(..., tol={tol}, max_iter={n}) reports n_iter={d['pub_iter']}, converged={d['pub_conv']}; "
+                        f"the log-likelihood steps {[ll[k] - ll[k - 1] for k in range(1, n + 1)]} give n_iter={n_pub}, converged={stop is not None}")
+            if abs(pub_ll - ll[n_pub]) > TOL * max(1.0, abs(ll[n_pub])):
+                return (f"fit-info: HiddenMarkovModel(...).fit_info reports log-likelihood {pub_ll!r} after {d['pub_iter']} iterations, "
+                        f"the returned model's exact log-likelihood (E/M steps) is {ll[n_pub]!r}")
     pi, A = unfl(d["pub_pi"]), [unfl(r) for r in d["pub_A"]]
     if abs(sum(pi) - 1.0) > TOL or any(abs(sum(r) - 1.0) > TOL for r in A):
         return f"update-normalised: trained model has pi sum {sum(pi)!r}, row sums {[sum(r) for r in A]}"
@@ -1061,9 +1396,20 @@ def oracle(case, ia):
         return oracle_em(case, json.loads(a))
     if k == "dwell":
         if any(s is None for s in case["path"]):
-            return None if a == "Error:AssertionError" else f"NaN label: expected the assertion to fail, got {a[:80]}"
+            return None if a in ("Error:AssertionError", "?") else f"NaN label: expected the assertion to fail, got {a[:80]}"
         if is_err(a) or is_err(ia[1]):
-            return f"dwell extraction raised {a}"
+            return f"dwell extraction raised {a if is_err(a) else ia[1]}"
+        if a == "?":
+            # the anchored private function was not reachable: ia[1] are the counts through the public extract_dwell_times
+            # ("?" where that route does not exist)
+            if ia[1] == "?":
+                return None
+            if not ia[1].startswith("["):
+                return f"extract_dwell_times: {ia[1][:120]}"
+            exp, cnt = expected_counts(case["path"], case["exclude"]), parse_dwells(ia[1], pair=False)
+            if cnt != exp:
+                return f"dwell-times: extract_dwell_times gives counts {cnt}, the runs of the path give {exp}"
+            return None
         return oracle_dwell(case["path"], case["exclude"], parse_dwells(a), parse_dwells(ia[1], pair=False))
     if k == "dwell_api":
         if is_err(a) or not a.startswith("["):
@@ -1097,6 +1443,8 @@ def nontrivial(case, ia):
     if k == "fb":
         return case["K"] >= 2 and len(case["data"]) >= 2
     if k in ("dwell", "dwell_api"):
+        if all(x == "?" for x in ia):  # nothing could be observed
+            return False
         return any(s is None for s in case["path"]) or len(runs_of(case["path"])) >= 2
     if k == "dwell_seq":
         return len(case["steps"]) >= 2 and any(len(runs_of(st["path"])) >= 2 for st in case["steps"])
@@ -1558,7 +1906,37 @@ def cases(tier, rng):
                    tol=sub.choice([0.0, 0.0, 1e-3, 0.5]), dtype=dtype, layout=layout, container=sub.choice(["array", "slice"]), subseed=i)
 
 
+def em_lls(d):
+    """the log-likelihoods of the observed Baum-Welch iterations (anchored E/M steps, else the public chain)"""
+    if got(d, "ll") is not None:
+        return unfl(d["ll"])
+    return [dec_float(c["ll"]) for c in (got(d, "chain") or [])]
+
+
 def extra_coverage(results):
+    unobserved = {}  # observations the harness could not make because a private tie was not reachable ("?")
+    for r in results:
+        k = r["case"]["op"]
+        for a in r["impl"][:1 if k in ("fb", "em") else None]:
+            if a == "?":
+                unobserved[k] = unobserved.get(k, 0) + 1
+            elif k in ("fb", "em") and not is_err(a):
+                for f, v in json.loads(a).items():
+                    if v == "?" and f != "chain":  # (the chain is a public twin, left out by design for long traces)
+                        unobserved[f"{k}.{f}"] = unobserved.get(f"{k}.{f}", 0) + 1
+    public_twin = {
+        "fb_cases_also_through_one_public_Baum_Welch_iteration": sum(
+            1 for r in results if r["case"]["op"] == "fb" and not is_err(r["impl"][0]) and got(json.loads(r["impl"][0]), "pub1") is not None),
+        "em_cases_also_iterated_one_by_one_through_the_public_constructor": sum(
+            1 for r in results if r["case"]["op"] == "em" and not is_err(r["impl"][0]) and got(json.loads(r["impl"][0]), "chain") is not None),
+    }
+    out = _extra_coverage(results)
+    out.update({"private_ties": private_ties(), "observations_not_made_private_tie_unreachable": dict(sorted(unobserved.items())),
+                "public_twins": public_twin})
+    return out
+
+
+def _extra_coverage(results):
     kinds, errs, Ks, Ts = {}, {}, {}, {"1": 0, "2-7": 0, "8-64": 0, "65-5000": 0}
     zero_models = ties = degenerate = em_dropped = brute = 0
     trained_checked = trained_mixed = trained_brute = trained_lean = 0
@@ -1606,9 +1984,9 @@ def extra_coverage(results):
                 trained_mixed += max(pi) < 0.999
                 trained_brute += c["K"] ** len(c["data"]) <= BRUTE_LIMIT
                 trained_lean += len(r["model"]) == 2 and r["model"][1] not in ("ok", "degenerate")
-        if k == "em" and not is_err(a) and not all(v <= TAU_COLLAPSED for v in unfl(json.loads(a)["taumax"])):
+        if k == "em" and not is_err(a) and not all(v <= TAU_COLLAPSED for v in (unfl(json.loads(a)["taumax"]) or [dec_float(c["taumax"]) for c in (got(json.loads(a), "chain") or [])])):
             em_collapsed += 1
-        if k == "em" and (r["model"][0] == "ok" or (not is_err(a) and not all(math.isfinite(v) for v in unfl(json.loads(a)["ll"])))):
+        if k == "em" and (r["model"][0] == "ok" or (not is_err(a) and not all(math.isfinite(v) for v in em_lls(json.loads(a))))):
             em_dropped += 1
             typed_em_dropped += c.get("dtype", "float64") != "float64"
     return {
